@@ -4,34 +4,26 @@
   GIVerif/Lemmas/Cache.lean, the executable step model in GIVerif/Model/Cache.lean.
 
   All theorems quantify over EVERY history `evs : List Ev` from an initial state: any
-  number of processes, any interleaving of their system calls, source modifications,
-  clock ticks and a crash of any process before any of its system calls (`Ev.crash`).
+  number of processes, any interleaving of their system calls, source modifications (stamped with
+  the current time, with or without a clock tick) and replacements (by a file that carries a given
+  mtime), clock ticks and a crash of any process before any of its system calls (`Ev.crash`).
+  There is no hypothesis on the device layout: the temporary file of a store is made in the cache
+  directory and published by one rename.
 
   Hypotheses beyond the property's own wording:
   * `Init s0`: nobody is running yet, the entry name (if present) points to an inode (the
-    initial entry may be anything: fresh, stale, or a torn pickle), AND `s0.xdev = false`: the
-    temp files of `mkstemp` (TMPDIR) are on the same file system as the cache directory, so that
-    `shutil.move` is one atomic `rename`.  Without it (`InitAny`, `xdev = true`: `rename` fails
-    with EXDEV and `shutil.move` copies: open-truncate-in-place, chunked write, copystat BY PATH,
-    unlink) two clauses are FALSE for the code as it is and are kept as `…_full` with witnesses:
-    `C18_xdev_raise_counterexample` (a loader discards the half-copied entry, then copystat fails
-    with ENOENT, which `store` re-raises) and `C18_xdev_stale_counterexample` (between the copy
-    and copystat the entry is complete under its final name with the mtime of the COPY).
-    Two concurrent cross-device publishes into the same entry (byte-level interleaving of two
-    writers) are beyond the content abstraction of the model.
-  * the source file always exists and its mtime is the time of its last modification.
-  * `C18_fresh` (the statement's main clause) is FALSE for the code as it is:
-    `C18_fresh_counterexample` (a parse read before a modification is stamped with the time
-    of writing) and `C18_fresh_equal_mtime_counterexample` (a modification within the
-    timestamp granule of the entry's last write; `≥` accepts equality).  The full statement is
-    kept as `C18_fresh_full`; `C18_fresh_older_mtime_counterexample`: a source REPLACED by a file
-    that carries an mtime older than the entry (`Ev.replace m`: installed with its build time
-    preserved) leaves the entry "fresh".  `C18_fresh_partial` proves the clause under exactly the
-    negation of the three witness classes: `histNoModDuringStore` ("the source is not modified
-    between the read that produced a parse and the store of that parse") and `histFineClock`
-    ("every modification is stamped with the time at which it happens and gets a timestamp later
-    than everything written before it" = `histTicks` + no `Ev.replace`), and with `InitF` (the
-    initial entry is not itself such a stale-but-fresh-looking parse).
+    initial entry may be anything: fresh, stale, or a torn pickle), no temporary file is lying
+    in the cache directory.
+  * the source file always exists.
+  * `C18_fresh` (the statement's main clause) is FALSE at full strength for the code as it is,
+    and for every scheme that recognises the source by its mtime: `C18_fresh_counterexample`
+    (the source gets a new version that carries the SAME mtime as the version a store has just
+    stat'ed and read; the entry made from the old version then carries "the mtime the source has
+    now").  The full statement is kept as `C18_fresh_full`; `C18_fresh_partial` proves it under
+    the single hypothesis `histDistinctMtimes` ("every version of the source that becomes current
+    during the history carries an mtime that no earlier version carried"; the version the initial
+    entry was made from counts as an earlier version), with `InitF` (the initial entry carries
+    the mtime of the version it was made from, and is not a stale parse stamped as current).
   * `C18_version_purge`: "no process of another scanner version stores afterwards" is
     `onlyStoresOf V`; the loads concerned are those that start afterwards.
 -/
@@ -41,7 +33,9 @@ namespace GIVerif.Cache
 open GIVerif.Gen.Cache
 
 /-- The six functions of cachestore.py still have the text the step model was written for
-    (re-extracted from /repo on every run), and the swallowed errors are the ones assumed. -/
+    (re-extracted from /repo on every run), the swallowed errors are the ones assumed, the temporary
+    file is made in the cache directory and published by a rename after it was given the source's
+    mtime, and the call site observes that mtime before it reads the source. -/
 theorem C18_code_shape :
     Gen.Cache.shapeCheckCacheVersion =
       ["def _check_cache_version(self):",
@@ -73,10 +67,10 @@ theorem C18_code_shape :
     ∧ Gen.Cache.shapeCacheIsValid =
       ["def _cache_is_valid(self, store_filename, filename):",
        "    try:",
-       "        store_mtime = os.stat(store_filename).st_mtime",
+       "        store_mtime = os.stat(store_filename).st_mtime_ns",
        "    except FileNotFoundError:",
        "        return False",
-       "    return store_mtime >= os.stat(filename).st_mtime"]
+       "    return store_mtime == os.stat(filename).st_mtime_ns"]
     ∧ Gen.Cache.shapeRemoveFilename =
       ["def _remove_filename(self, filename):",
        "    try:",
@@ -93,13 +87,21 @@ theorem C18_code_shape :
        "            continue",
        "        self._remove_filename(os.path.join(self._directory, filename))"]
     ∧ Gen.Cache.shapeStore =
-      ["def store(self, filename, data):",
+      ["def store(self, filename, data, source_mtime_ns):",
+       "    \"\"\"Store data, the result of parsing filename. source_mtime_ns is",
+       "        the st_mtime_ns filename had BEFORE it was read.\"\"\"",
        "    store_filename = self._get_filename(filename)",
        "    if store_filename is None:",
        "        return",
        "    if self._cache_is_valid(store_filename, filename):",
        "        return None",
-       "    tmp_fd, tmp_filename = tempfile.mkstemp(prefix='g-ir-scanner-cache-')",
+       "    try:",
+       "        tmp_fd, tmp_filename = tempfile.mkstemp(prefix='g-ir-scanner-cache-', dir=self._directory)",
+       "    except (IOError, OSError) as e:",
+       "        if e.errno == errno.EACCES:",
+       "            return",
+       "        else:",
+       "            raise",
        "    try:",
        "        with os.fdopen(tmp_fd, 'wb') as tmp_file:",
        "            pickle.dump(data, tmp_file)",
@@ -110,9 +112,10 @@ theorem C18_code_shape :
        "        else:",
        "            raise",
        "    try:",
-       "        shutil.move(tmp_filename, store_filename)",
+       "        os.utime(tmp_filename, ns=(source_mtime_ns, source_mtime_ns))",
+       "        os.replace(tmp_filename, store_filename)",
        "    except (IOError, OSError) as e:",
-       "        if e.errno == errno.EACCES:",
+       "        if e.errno in (errno.EACCES, errno.ENOENT):",
        "            self._remove_filename(tmp_filename)",
        "        else:",
        "            raise"]
@@ -129,7 +132,7 @@ theorem C18_code_shape :
        "        else:",
        "            raise",
        "    with fd:",
-       "        if os.fstat(fd.fileno()).st_mtime < os.stat(filename).st_mtime:",
+       "        if os.fstat(fd.fileno()).st_mtime_ns != os.stat(filename).st_mtime_ns:",
        "            return None",
        "        try:",
        "            data = pickle.load(fd)",
@@ -139,17 +142,21 @@ theorem C18_code_shape :
        "        return data"]
     ∧ statEntryCatchesENOENT = true ∧ openCatchesENOENT = true ∧ unpickleCatchesAll = true
     ∧ brokenIsUnlinked = true ∧ unlinkCatchesENOENT = true ∧ stampCatchesENOENT = true
+    ∧ moveCatchesENOENT = true ∧ utimeCatchesENOENT = true ∧ mkstempCatchesEACCES = true
+    ∧ tmpInCacheDir = true ∧ publishIsRename = true ∧ stampIsSourceMtime = true
+    ∧ callerStatsBeforeParse = true
     ∧ loadByFd = true ∧ loadStatOrder = "entry-first" :=
   ⟨rfl, rfl, rfl, rfl, rfl, rfl, by decide⟩
 
-/-- The two freshness comparisons: `store` skips writing iff entry mtime ≥ source mtime;
-    `load` rejects iff the opened file's mtime < source mtime. -/
+/-- The two freshness tests are the same equality: `store` skips writing iff the entry carries
+    the source's current mtime; `load` rejects iff the opened file does not. -/
 theorem C18_comparisons (a b : Nat) :
-    (cacheIsValid a b = true ↔ b ≤ a) ∧ (loadStale a b = true ↔ a < b) := by
+    (cacheIsValid a b = true ↔ a = b) ∧ (loadStale a b = true ↔ a ≠ b) := by
   simp [cacheIsValid, loadStale]
 
 /-- No system call of store / load / version check fails with an error the code does not
-    handle: no process ever raises, on any history. -/
+    handle: no process ever raises, on any history, on any device layout (a temporary file that
+    a purge has removed under a running store is a swallowed ENOENT). -/
 theorem C18_no_raise (s0 : State) (h0 : Init s0) (evs : List Ev) (p : Nat) :
     ((run s0 evs).procs p).pc ≠ .raised := by
   intro h
@@ -178,11 +185,11 @@ theorem C18_returns_inode (s : State) (p i v0 m sm : Nat) (r : Ret)
     exact ⟨by simpa [Inode.complete] using hc, rfl, rfl⟩
   · simp [State.setPc] at h
 
-/-- An entry older than its source is never used: the inode that was unpickled has an mtime
-    ≥ the source mtime read in the same load (the inode's mtime at the time of the read, not
-    a remembered value). -/
+/-- An entry older (or newer) than its source is never used: the inode that was unpickled carries
+    EXACTLY the mtime the source had when this load looked at it (the inode's mtime at the time of
+    the read, not a remembered value). -/
 theorem C18_not_older (s0 : State) (h0 : Init s0) (evs : List Ev) (p : Nat) (r : Ret)
-    (h : ((run s0 evs).procs p).pc = .done (some r)) : r.srcSeen ≤ r.entryM := by
+    (h : ((run s0 evs).procs p).pc = .done (some r)) : r.srcSeen = r.entryM := by
   have := (run_inv s0 evs h0.inv).pcs p
   rw [h] at this
   exact this.2.1
@@ -194,148 +201,63 @@ theorem C18_not_from_future (s0 : State) (h0 : Init s0) (evs : List Ev) (p : Nat
   rw [h] at this
   exact ⟨this.2.2.2, this.2.2.1⟩
 
+/-- What becomes visible under the entry name is never torn and never half stamped: a system call
+    leaves the entry name alone, removes it, or makes it point to a COMPLETE pickle that already
+    carries the source mtime its writer observed before reading the source. -/
+theorem C18_publish_atomic (s0 : State) (h0 : Init s0) (evs : List Ev) (p : Nat) :
+    let s := run s0 evs
+    (step s (.step p)).entry = s.entry ∨ (step s (.step p)).entry = none ∨
+      ∃ i, (step s (.step p)).entry = some i ∧ (s.inodes i).len = full ∧ (s.inodes i).mtime = (s.procs p).m0 ∧
+        (s.inodes i).data = (s.procs p).data := by
+  intro s
+  have hi := run_inv s0 evs h0.inv
+  rcases stepProc_entry_cases s p hi with a | a | ⟨i, a, _, c⟩
+  · exact Or.inl a
+  · exact Or.inr (Or.inl a)
+  · have hp := hi.pcs p
+    rw [a] at hp
+    exact Or.inr (Or.inr ⟨i, c, hp.2.1, hp.2.2, hp.1.2.2.2.1⟩)
+
 /-- THE MAIN CLAUSE at full strength: the returned parse is the parse of a source version
     that was current at some instant of the load (versions `vStart..vEnd`). -/
 def C18_fresh_full : Prop :=
   ∀ s0, InitF s0 → ∀ (evs : List Ev) (p : Nat) (r : Ret),
     ((run s0 evs).procs p).pc = .done (some r) → r.vStart ≤ r.data ∧ r.data ≤ r.vEnd
 
-/-- first witness: process 0 parses v1, the source becomes v2, process 0 stores parse(v1)
-    (stamped with the time of writing), process 1 loads it -/
-def witnessStale : List Ev :=
-  [.spawn 0 .store 7, .modify true, .step 0, .step 0, .step 0, .step 0, .step 0, .step 0,
-   .spawn 1 .load 7, .step 1, .step 1, .step 1, .step 1]
-
-/-- second witness: store completes, then the source is modified within the same timestamp
-    granule; no modification between parse and store -/
-def witnessEqual : List Ev :=
-  [.spawn 0 .store 7, .step 0, .step 0, .step 0, .step 0, .step 0, .step 0, .modify false,
+/-- the witness: the source becomes v2 (mtime 11); process 0 stats it (11) and reads v2; the source
+    becomes v3 within the same timestamp granule (mtime 11 again); process 0 stores parse(v2) with
+    mtime 11; process 1 loads: the entry carries exactly the mtime the source has now -/
+def witnessSameMtime : List Ev :=
+  [.modify true, .spawn 0 .store 7, .step 0, .modify false,
+   .step 0, .step 0, .step 0, .step 0, .step 0, .step 0, .step 0,
    .spawn 1 .load 7, .step 1, .step 1, .step 1, .step 1]
 
 def witnessInit : State := mkInit 10 1 5 none none
 
-/-- It does NOT hold: the load of process 1 starts and ends while v2 is current and returns
-    the parse of v1. -/
+theorem witnessInit_initF : InitF witnessInit :=
+  mkInit_initF 10 1 5 none none (by simp) (by simp)
+
+/-- It does NOT hold: the load of process 1 starts and ends while v3 is current and returns
+    the parse of v2.  (No test of the file's mtime can tell v2 from v3.) -/
 theorem C18_fresh_counterexample : ¬ C18_fresh_full := by
   intro h
-  have hi : InitF witnessInit :=
-    mkInit_initF 10 1 5 none none (by simp) (by decide) (by simp)
-  have hr : ((run witnessInit witnessStale).procs 1).pc = .done (some ⟨1, 7, 2, 11, 11, 2, 2⟩) := by
+  have hr : ((run witnessInit witnessSameMtime).procs 1).pc = .done (some ⟨2, 7, 2, 11, 11, 3, 3⟩) := by
     decide
-  have := (h witnessInit hi witnessStale 1 _ hr).1
+  have := (h witnessInit witnessInit_initF witnessSameMtime 1 _ hr).1
   exact absurd this (by decide)
 
-/-- The full clause restricted to histories without a modification between parse and store. -/
-def C18_fresh_nomod_full : Prop :=
-  ∀ s0, InitF s0 → ∀ (evs : List Ev), histNoModDuringStore s0 evs = true → ∀ (p : Nat) (r : Ret),
-    ((run s0 evs).procs p).pc = .done (some r) → r.vStart ≤ r.data ∧ r.data ≤ r.vEnd
+/-- the witness violates exactly the hypothesis of `C18_fresh_partial` -/
+theorem C18_fresh_counterexample_hypothesis : histDistinctMtimes witnessInit witnessSameMtime = false := by
+  decide
 
-/-- It still does not hold: entry and new source version carry the same mtime and `≥` accepts. -/
-theorem C18_fresh_equal_mtime_counterexample : ¬ C18_fresh_nomod_full := by
-  intro h
-  have hi : InitF witnessInit :=
-    mkInit_initF 10 1 5 none none (by simp) (by decide) (by simp)
-  have hok : histNoModDuringStore witnessInit witnessEqual = true := by decide
-  have hr : ((run witnessInit witnessEqual).procs 1).pc = .done (some ⟨1, 7, 2, 10, 10, 2, 2⟩) := by
-    decide
-  have := (h witnessInit hi witnessEqual hok 1 _ hr).1
-  exact absurd this (by decide)
-
-/-- The full clause restricted to histories without a modification between parse and store and in
-    which every modification stamped with the current time gets a LATER timestamp than everything
-    written before — but a version may be installed with a preserved mtime (`Ev.replace`). -/
-def C18_fresh_ticks_full : Prop :=
-  ∀ s0, InitF s0 → ∀ (evs : List Ev), histNoModDuringStore s0 evs = true → histTicks evs = true →
-    ∀ (p : Nat) (r : Ret),
-    ((run s0 evs).procs p).pc = .done (some r) → r.vStart ≤ r.data ∧ r.data ≤ r.vEnd
-
-/-- third witness: the store completes (entry stamped 10), time passes, the source is replaced by a
-    file that carries mtime 3 (built before the scan, installed with its time preserved), a load
-    starts afterwards -/
-def witnessOlder : List Ev :=
-  [.spawn 0 .store 7, .step 0, .step 0, .step 0, .step 0, .step 0, .step 0, .tick, .replace 3,
-   .spawn 1 .load 7, .step 1, .step 1, .step 1, .step 1]
-
-/-- It does not hold either: "the entry is newer than the source" does not mean "the entry was made
-    from this source". -/
-theorem C18_fresh_older_mtime_counterexample : ¬ C18_fresh_ticks_full := by
-  intro h
-  have hi : InitF witnessInit :=
-    mkInit_initF 10 1 5 none none (by simp) (by decide) (by simp)
-  have hr : ((run witnessInit witnessOlder).procs 1).pc = .done (some ⟨1, 7, 2, 10, 3, 2, 2⟩) := by
-    decide
-  have := (h witnessInit hi witnessOlder (by decide) (by decide) 1 _ hr).1
-  exact absurd this (by decide)
-
-/-- `histFineClock` is `histTicks` plus "no version is installed with a preserved mtime". -/
-theorem C18_fineClock_ticks (evs : List Ev) (h : histFineClock evs = true) : histTicks evs = true := by
-  induction evs with
-  | nil => rfl
-  | cons e es ih =>
-    cases e with
-    | modify t =>
-      simp only [histFineClock, Bool.and_eq_true] at h
-      simp [histTicks, h.1, ih h.2]
-    | replace m => simp [histFineClock] at h
-    | spawn p op sv => simp only [histFineClock] at h; simp [histTicks, ih h]
-    | step p => simp only [histFineClock] at h; simp [histTicks, ih h]
-    | crash p => simp only [histFineClock] at h; simp [histTicks, ih h]
-    | tick => simp only [histFineClock] at h; simp [histTicks, ih h]
-
-/-- The main clause under the two explicit hypotheses on the history. -/
+/-- The main clause under the single hypothesis that every version of the source that becomes
+    current carries an mtime no earlier version carried. -/
 theorem C18_fresh_partial (s0 : State) (h0 : InitF s0) (evs : List Ev)
-    (hnomod : histNoModDuringStore s0 evs = true) (hclock : histFineClock evs = true)
+    (hdist : histDistinctMtimes s0 evs = true)
     (p : Nat) (r : Ret) (h : ((run s0 evs).procs p).pc = .done (some r)) :
     r.vStart ≤ r.data ∧ r.data ≤ r.vEnd :=
-  ⟨(run_invF s0 evs h0.toInit.inv h0.invF (histOK_of s0 evs hnomod hclock)).rets p r h,
+  ⟨(run_invF s0 evs h0.toInit.inv h0.invF hdist).rets p r h,
    (C18_not_from_future s0 h0.toInit evs p r h).1⟩
-
-/-! ### cross-device publish (TMPDIR and cache directory on different file systems) -/
-
-/-- "no exception escapes", on any device layout -/
-def C18_no_raise_full : Prop :=
-  ∀ s0, InitAny s0 → ∀ (evs : List Ev) (p : Nat), ((run s0 evs).procs p).pc ≠ .raised
-
-/-- process 0 stores across devices; while the entry is half copied process 1 loads it, finds it
-    torn and unlinks it; process 0 finishes the copy and its copystat (by path) fails -/
-def witnessXdevRaise : List Ev :=
-  [.spawn 0 .store 7, .step 0, .step 0, .step 0, .step 0, .step 0, .step 0, .step 0, .step 0,
-   .spawn 1 .load 7, .step 1, .step 1, .step 1, .step 1, .step 1,
-   .step 0, .step 0, .step 0]
-
-theorem C18_xdev_raise_counterexample : ¬ C18_no_raise_full := by
-  intro h
-  have hi : InitAny (mkInit 10 1 5 none none true) := mkInit_initAny 10 1 5 none none true (by simp)
-  exact h _ hi witnessXdevRaise 0 (by decide)
-
-/-- the main clause under the two history hypotheses, on any device layout -/
-def C18_fresh_anydevice_full : Prop :=
-  ∀ s0, InitAny s0 → FreshStart s0 → ∀ (evs : List Ev), histNoModDuringStore s0 evs = true →
-    histFineClock evs = true → ∀ (p : Nat) (r : Ret),
-    ((run s0 evs).procs p).pc = .done (some r) → r.vStart ≤ r.data ∧ r.data ≤ r.vEnd
-
-/-- process 0 parses v1 and writes its temp file; the source becomes v2; process 0 publishes
-    across devices; before its copystat process 1 loads the copy (mtime of the copy ≥ source) -/
-def witnessXdevStale : List Ev :=
-  [.spawn 0 .store 7, .step 0, .step 0, .step 0, .step 0, .step 0, .modify true,
-   .step 0, .step 0, .step 0, .step 0,
-   .spawn 1 .load 7, .step 1, .step 1, .step 1, .step 1]
-
-theorem C18_xdev_stale_counterexample : ¬ C18_fresh_anydevice_full := by
-  intro h
-  have hi : InitAny (mkInit 10 1 5 none none true) := mkInit_initAny 10 1 5 none none true (by simp)
-  have hf : FreshStart (mkInit 10 1 5 none none true) := mkInit_freshStart_empty 10 1 5 none true (by decide)
-  have hr : ((run (mkInit 10 1 5 none none true) witnessXdevStale).procs 1).pc
-      = .done (some ⟨1, 7, 2, 11, 11, 2, 2⟩) := by decide
-  have := (h _ hi hf witnessXdevStale (by decide) (by decide) 1 _ hr).1
-  exact absurd this (by decide)
-
-/-- On one device the publish step never takes the copy path: no process is ever inside the
-    cross-device fall-back. -/
-theorem C18_same_device_never_copies (s0 : State) (h0 : Init s0) (evs : List Ev) (p i : Nat) :
-    ((run s0 evs).procs p).pc ≠ .xOpen i ∧ ((run s0 evs).procs p).pc ≠ .xCopystat i := by
-  have := (run_inv s0 evs h0.inv).pcs p
-  constructor <;> intro hpc <;> rw [hpc] at this <;> exact this
 
 /-- A crash changes nothing in the file system: it only stops the process. -/
 theorem C18_crash_only_kills (s : State) (p : Nat) :
@@ -344,19 +266,39 @@ theorem C18_crash_only_kills (s : State) (p : Nat) :
   simp only [step]; split <;> simp [State.setPc]
 
 /-- Wherever a process is killed (`evs1 ++ crash p :: evs2`, any `p`, any point): the entry
-    name still points to a complete pickle (the torn ones are temp files in TMPDIR), nobody
-    raises, and every later load returns nothing or a complete entry not older than its
-    source. -/
+    name still points to a complete pickle; what the crash can leave behind are temporary files in
+    the cache directory (possibly torn): they are inodes that were never published and the entry
+    name never points to one of them; nobody raises, and every later load returns nothing or a
+    complete entry carrying exactly the mtime of its source. -/
 theorem C18_crash (s0 : State) (h0 : Init s0) (hc : ∀ i, s0.entry = some i → (s0.inodes i).len = full)
     (evs1 evs2 : List Ev) (p : Nat) :
     let s := run s0 (evs1 ++ .crash p :: evs2)
     (∀ i, s.entry = some i → (s.inodes i).len = full) ∧
+    (∀ i, i ∈ s.tmps → (s.inodes i).pub = false ∧ s.entry ≠ some i) ∧
     (∀ q, (s.procs q).pc ≠ .raised) ∧
-    (∀ q r, (s.procs q).pc = .done (some r) → r.len = full ∧ r.srcSeen ≤ r.entryM ∧ r.data ≤ r.vEnd) := by
+    (∀ q r, (s.procs q).pc = .done (some r) → r.len = full ∧ r.srcSeen = r.entryM ∧ r.data ≤ r.vEnd) := by
   intro s
-  refine ⟨run_invC s0 _ h0.inv hc, fun q => C18_no_raise s0 h0 _ q, fun q r hq => ?_⟩
-  exact ⟨C18_complete_or_none s0 h0 _ q r hq, C18_not_older s0 h0 _ q r hq,
-    (C18_not_from_future s0 h0 _ q r hq).1⟩
+  have hi : Inv s := run_inv s0 _ h0.inv
+  refine ⟨run_invC s0 _ h0.inv hc, ?_, fun q => C18_no_raise s0 h0 _ q, fun q r hq => ?_⟩
+  · intro i hmem
+    have h1 := (hi.tmps i hmem).2
+    refine ⟨h1, ?_⟩
+    intro he
+    have h2 := (hi.entry i he).2
+    rw [h1] at h2; cases h2
+  · exact ⟨C18_complete_or_none s0 h0 _ q r hq, C18_not_older s0 h0 _ q r hq,
+      (C18_not_from_future s0 h0 _ q r hq).1⟩
+
+/-- A store whose temporary file was removed under it (by the purge of a scanner of another
+    version) drops its parse silently: `os.utime` / `os.replace` fail with ENOENT, which is
+    swallowed, nothing is published. -/
+theorem C18_purged_temp_dropped (s : State) (p i : Nat) (hgone : s.tmps.contains i = false)
+    (hpc : (s.procs p).pc = .sUtime i ∨ (s.procs p).pc = .sRename i) :
+    let s' := run s [.step p, .step p]
+    (s'.procs p).pc = .done none ∧ s'.entry = s.entry ∧ s'.tmps = s.tmps := by
+  rcases hpc with hpc | hpc <;>
+    simp [run, step, stepProc, hpc, hgone, State.setPc, utimeCatchesENOENT, moveCatchesENOENT,
+      unlinkCatchesENOENT]
 
 /-- An unreadable / truncated entry is discarded instead of raising: a load that reads a
     torn pickle goes on to unlink the entry name and returns nothing. -/
@@ -372,21 +314,56 @@ theorem C18_torn_discarded (s : State) (p i v0 m sm : Nat) (hpc : (s.procs p).pc
   simp only [step, stepProc, State.setPc, upd_same, unlinkCatchesENOENT, if_true]
   cases s.entry <;> simp
 
-/-- The purge step of a version check removes the entry. -/
-theorem C18_purge_unlinks (s : State) (p : Nat) (hpc : (s.procs p).pc = .cUnlink) :
-    (step s (.step p)).entry = none := by
-  simp only [step, stepProc, hpc, unlinkCatchesENOENT, if_true]
-  cases h : s.entry <;> simp [State.setPc, h]
+/-- `os.listdir` of a purge reports the entry and EVERY temporary file lying in the cache
+    directory (those a crashed store left behind included). -/
+theorem C18_purge_lists_everything (s : State) (p : Nat) (hpc : (s.procs p).pc = .cListdir) :
+    let todo : List Name := (if s.entry.isSome then [none] else []) ++ s.tmps.map some
+    ((step s (.step p)).procs p).pc = (if todo.isEmpty then .cMkstemp else .cUnlink todo) := by
+  intro todo
+  simp only [step, stepProc, hpc]
+  cases h : (if s.entry.isSome then [none] else []) ++ s.tmps.map some with
+  | nil => simp [todo, h, State.setPc]
+  | cons n rest => simp [todo, h, State.setPc]
 
-/-- A change of scanner version discards the entry and restamps: a version check by a process
-    of version `V` run to completion on a cache stamped otherwise. -/
+/-- An unlink step of a purge removes the listed name (entry or temporary file). -/
+theorem C18_purge_unlinks (s : State) (p : Nat) (n : Name) (rest : List Name)
+    (hpc : (s.procs p).pc = .cUnlink (n :: rest)) :
+    nameExists (step s (.step p)) n = false := by
+  simp only [step, stepProc, hpc, unlinkCatchesENOENT, if_true]
+  split
+  · cases n <;> simp [nameExists, unlinkName, State.setPc]
+  · rename_i hne
+    cases n <;> simpa [nameExists, State.setPc] using hne
+
+/-- A change of scanner version discards the entry and whatever temporary file lies in the cache
+    directory, and restamps: a version check by a process of version `V` run to completion on a
+    cache stamped otherwise (here: at most one leftover temporary file). -/
 theorem C18_version_change_discards (s : State) (p V : Nat) (hidle : (s.procs p).pc = .idle)
-    (hst : s.stamp ≠ some V) :
-    let s' := run s [.spawn p .check V, .step p, .step p, .step p, .step p, .step p, .step p, .step p]
-    s'.entry = none ∧ s'.stamp = some V ∧ (s'.procs p).pc = .done none := by
-  simp only [run, List.foldl_cons, List.foldl_nil]
-  cases he : s.entry <;> cases hs : s.stamp <;>
-    simp_all [step, stepProc, State.setPc, firstPc, stampCatchesENOENT]
+    (hst : s.stamp ≠ some V) (htmps : s.tmps = [] ∨ ∃ t, s.tmps = [t]) :
+    ∃ n, let s' := run s (.spawn p .check V :: List.replicate n (.step p))
+      s'.entry = none ∧ s'.tmps = [] ∧ s'.stamp = some V ∧ (s'.procs p).pc = .done none := by
+  rcases htmps with ht | ⟨t, ht⟩
+  · cases he : s.entry with
+    | none =>
+      refine ⟨6, ?_⟩
+      cases hs : s.stamp <;>
+        simp_all [run, List.replicate, step, stepProc, State.setPc, firstPc, stampCatchesENOENT]
+    | some e =>
+      refine ⟨7, ?_⟩
+      cases hs : s.stamp <;>
+        simp_all [run, List.replicate, step, stepProc, State.setPc, firstPc, stampCatchesENOENT, nameExists,
+          unlinkName]
+  · cases he : s.entry with
+    | none =>
+      refine ⟨7, ?_⟩
+      cases hs : s.stamp <;>
+        simp_all [run, List.replicate, step, stepProc, State.setPc, firstPc, stampCatchesENOENT, nameExists,
+          unlinkName]
+    | some e =>
+      refine ⟨8, ?_⟩
+      cases hs : s.stamp <;>
+        simp_all [run, List.replicate, step, stepProc, State.setPc, firstPc, stampCatchesENOENT, nameExists,
+          unlinkName]
 
 /-- After the entry has been purged (or whenever it is absent or written by version `V`), as
     long as only processes of version `V` store, every load that STARTS afterwards returns
@@ -408,61 +385,76 @@ theorem C18_version_purge (s0 : State) (h0 : Init s0) (evs0 : List Ev) (V : Nat)
 
 /-! ### non-vacuity: concrete histories meeting the hypotheses and the conclusions -/
 
-/-- store then load, sequentially: the load returns the parse of the current version -/
+/-- store then load, sequentially: the entry carries the source's mtime (5, not the time of
+    writing 10) and the load returns the parse of the current version -/
 example :
     ((run (mkInit 10 1 5 none none)
-      [.spawn 0 .store 7, .step 0, .step 0, .step 0, .step 0, .step 0, .step 0,
+      [.spawn 0 .store 7, .step 0, .step 0, .step 0, .step 0, .step 0, .step 0, .step 0, .step 0,
        .spawn 1 .load 7, .step 1, .step 1, .step 1, .step 1]).procs 1).pc
-      = .done (some ⟨1, 7, 2, 10, 5, 1, 1⟩) := by decide
+      = .done (some ⟨1, 7, 2, 5, 5, 1, 1⟩) := by decide
 
-/-- the hypotheses of `C18_fresh_partial` hold on a history with a concurrent store, a
-    modification and a load that returns something -/
+/-- the hypothesis of `C18_fresh_partial` holds on a history with a concurrent store, a
+    modification, a replacement by an older-dated file, and loads that return something -/
 example :
     let evs := [.spawn 0 .store 7, .step 0, .step 0, .spawn 1 .load 7, .step 0, .step 0, .step 0, .step 0,
-                .step 1, .modify true, .step 1, .spawn 2 .load 7, .step 2, .step 2, .step 2, .step 2]
-    histNoModDuringStore (mkInit 10 1 5 (some (1, 7, 2, 6)) none) evs = true ∧ histFineClock evs = true ∧
-    ((run (mkInit 10 1 5 (some (1, 7, 2, 6)) none) evs).procs 2).pc = .done none := by decide
+                .step 1, .step 1, .step 1, .step 1, .modify true, .step 0, .step 0, .step 0,
+                .replace 3, .spawn 2 .load 7, .step 2, .step 2, .step 2, .step 2]
+    histDistinctMtimes (mkInit 10 1 5 (some (1, 7, 2, 5)) none) evs = true ∧
+    ((run (mkInit 10 1 5 (some (1, 7, 2, 5)) none) evs).procs 1).pc = .done (some ⟨1, 7, 2, 5, 5, 1, 1⟩) ∧
+    ((run (mkInit 10 1 5 (some (1, 7, 2, 5)) none) evs).procs 2).pc = .done none := by decide
 
-/-- a replacement that carries an mtime NEWER than the entry is noticed: the load returns nothing -/
-example :
-    ((run (mkInit 10 1 5 (some (1, 7, 2, 8)) none)
-      [.replace 9, .spawn 1 .load 7, .step 1, .step 1, .step 1]).procs 1).pc = .done none := by decide
-
-/-- the hypotheses of `C18_fresh_ticks_full` are satisfiable with a replacement in the history -/
-example : histNoModDuringStore witnessInit witnessOlder = true ∧ histTicks witnessOlder = true ∧
-    histFineClock witnessOlder = false := by decide
-
-example : InitF (mkInit 10 1 5 (some (1, 7, 2, 6)) none) :=
-  mkInit_initF 10 1 5 _ none (by intro d sv l m h; cases h; decide) (by decide)
+example : InitF (mkInit 10 1 5 (some (1, 7, 2, 5)) none) :=
+  mkInit_initF 10 1 5 _ none (by intro d sv l m h; cases h; decide)
     (by intro d sv l m h; cases h; decide)
 
-/-- a stale initial entry (parse of v0, older than the source) is rejected -/
+/-- the parse of the replaced file is not served after the source was replaced by a file carrying
+    an OLDER mtime than the time the entry was written (the former finding) -/
+example :
+    ((run (mkInit 10 1 5 none none)
+      [.spawn 0 .store 7, .step 0, .step 0, .step 0, .step 0, .step 0, .step 0, .step 0, .step 0,
+       .tick, .replace 3, .spawn 1 .load 7, .step 1, .step 1, .step 1]).procs 1).pc = .done none := by decide
+
+/-- a parse read before a modification is stored with the OLD mtime and never served -/
+example :
+    ((run (mkInit 10 1 5 none none)
+      [.spawn 0 .store 7, .step 0, .modify true, .step 0, .step 0, .step 0, .step 0, .step 0, .step 0, .step 0,
+       .spawn 1 .load 7, .step 1, .step 1, .step 1]).procs 1).pc = .done none := by decide
+
+/-- a stale initial entry (parse of v0, made from a version with mtime 3) is rejected -/
 example :
     ((run (mkInit 10 1 5 (some (0, 7, 2, 3)) none)
       [.spawn 1 .load 7, .step 1, .step 1, .step 1]).procs 1).pc = .done none := by decide
 
-/-- a torn initial entry with a fresh mtime is unlinked, nothing is returned, nobody raises -/
+example : InitF (mkInit 10 1 5 (some (0, 7, 2, 3)) none) :=
+  mkInit_initF 10 1 5 _ none (by intro d sv l m h; cases h; decide)
+    (by intro d sv l m h; cases h; decide)
+
+/-- a torn initial entry carrying the source's mtime is unlinked, nothing is returned, nobody raises -/
 example :
-    let s := run (mkInit 10 1 5 (some (1, 7, 1, 9)) none)
+    let s := run (mkInit 10 1 5 (some (1, 7, 1, 5)) none)
       [.spawn 1 .load 7, .step 1, .step 1, .step 1, .step 1, .step 1]
     (s.procs 1).pc = .done none ∧ s.entry = none := by decide
 
-/-- a crash in the middle of a store leaves the old entry in place and a torn temp file -/
+/-- a crash in the middle of a store leaves the old entry in place and a torn temporary file in the
+    cache directory; the purge of the next scanner version removes both -/
 example :
-    let s := run (mkInit 10 1 5 (some (0, 7, 2, 3)) none)
-      [.spawn 0 .store 7, .step 0, .step 0, .step 0, .step 0, .crash 0]
-    s.entry = some 0 ∧ (s.inodes 1).len = 1 ∧ s.tmps = [1] ∧ (s.procs 0).pc = .crashed := by decide
+    let s := run (mkInit 10 1 5 (some (0, 7, 2, 3)) (some 7))
+      [.spawn 0 .store 7, .step 0, .step 0, .step 0, .step 0, .step 0, .crash 0]
+    s.entry = some 0 ∧ (s.inodes 1).len = 1 ∧ s.tmps = [1] ∧ (s.procs 0).pc = .crashed ∧
+    (let s' := run s [.spawn 1 .check 8, .step 1, .step 1, .step 1, .step 1, .step 1, .step 1, .step 1, .step 1]
+     s'.entry = none ∧ s'.tmps = [] ∧ s'.stamp = some 8 ∧ (s'.procs 1).pc = .done none) := by decide
 
-/-- version check of scanner 8 on a cache stamped 7 with an entry: purge, restamp; a W-store
-    that slips in afterwards is what `onlyStoresOf` excludes -/
+/-- a purge removes the temporary file of a running store: the store ends without raising and
+    without publishing -/
 example :
-    let s := run (mkInit 10 1 5 (some (1, 7, 2, 6)) (some 7))
-      [.spawn 0 .check 8, .step 0, .step 0, .step 0, .step 0, .step 0, .step 0, .step 0]
-    s.entry = none ∧ s.stamp = some 8 := by decide
+    let s := run (mkInit 10 1 5 none (some 7))
+      [.spawn 0 .store 7, .step 0, .step 0, .step 0, .step 0, .step 0, .step 0,
+       .spawn 1 .check 8, .step 1, .step 1, .step 1, .step 0, .step 0, .step 0]
+    (s.procs 0).pc = .done none ∧ s.entry = none ∧ s.tmps = [] := by decide
 
 example :
     onlyStoresOf 8 (mkInit 10 1 5 none (some 8))
-      [.spawn 0 .store 8, .step 0, .step 0, .step 0, .step 0, .step 0, .step 0,
+      [.spawn 0 .store 8, .step 0, .step 0, .step 0, .step 0, .step 0, .step 0, .step 0, .step 0,
        .spawn 1 .load 8, .step 1, .step 1, .step 1, .step 1] = true := by decide
 
 end GIVerif.Cache
